@@ -52,7 +52,7 @@ func c15R1(c *Ctx) {
 			var call *ssa.Call
 			eachInstr(dispatch, func(r instrRef) {
 				if cl, ok := r.I.(*ssa.Call); ok {
-					if f := cl.Common().StaticCallee(); f != nil && f.Name() == name {
+					if f := cl.Common().StaticCallee(); f != nil && funcSimpleName(f) == name {
 						call = cl
 					}
 				}
